@@ -215,7 +215,8 @@ Definition apply_op (g : K -> K -> K) (f : field) (other : value) : res field :=
       | Some nvr =>
           mk_field (fmesh f) nvr arr
                    (if (fnv labelled =? nvr)%nat then fvdims labelled else None)
-                   (map2 andb (fvalid f) (fvalid o)) (Some (fvmap labelled))
+                   (map2 andb (fvalid f) (fvalid o))
+                   (Some (if (fnv labelled =? nvr)%nat then fvmap labelled else []))
       end
   | VC c =>
       let ok := match c with
@@ -228,7 +229,7 @@ Definition apply_op (g : K -> K -> K) (f : field) (other : value) : res field :=
       | None => Err ValueE
       | Some nvr =>
           mk_field (fmesh f) nvr arr (if (fnv f =? nvr)%nat then fvdims f else None)
-                   (fvalid f) (Some (fvmap f))
+                   (fvalid f) (Some (if (fnv f =? nvr)%nat then fvmap f else []))
       end
   end.
 
@@ -325,23 +326,37 @@ Definition not_impl {A} (r : res A) : res A := match r with OK a => OK a | Err _
 Definition ufunc1 (g : K -> K) (f : field) : res field :=
   not_impl (mk_field (fmesh f) (fnv f) (map (map g) (farr f)) (fvdims f) (fvalid f) (Some (fvmap f))).
 
-(* __array_ufunc__ with two inputs, [self] = the leftmost Field input.  The meshes of two Field
-   inputs are NOT compared by the code; arrays of meshes with different n do not broadcast (the
-   degenerate broadcastable shapes are outside the generated domain). *)
+(* __array_ufunc__ with two inputs, [self] = the leftmost Field input: every Field input's mesh
+   must be allclose to self.mesh; the result is labelled like the first Field input that has the
+   result's component count (else no labels, empty mapping); validity = AND of the Field inputs.
+   Arrays of meshes with different n are rejected by the mesh test. *)
+Definition ufunc_labels (nvr : nat) (fields : list field) : option (list string) * vmapping :=
+  match find (fun x => (fnv x =? nvr)%nat) fields with
+  | Some x => (fvdims x, fvmap x)
+  | None => (None, [])
+  end.
+Definition fields_of (a b : value) : list field :=
+  (match a with VF x => [x] | VC _ => [] end) ++ (match b with VF x => [x] | VC _ => [] end).
+Fixpoint all_close (self : field) (l : list field) : res unit :=
+  match l with
+  | [] => OK tt
+  | x :: t => do c <- mesh_allclose (fmesh self) (fmesh x);
+              if negb c then Err ValueE else all_close self t
+  end.
 Definition ufunc2 (g : K -> K -> K) (self : field) (a b : value) : res field :=
   let N := length (farr self) in
   let nva := match a with VF x => fnv x | VC c => const_nv self c end in
   let nvb := match b with VF x => fnv x | VC c => const_nv self c end in
-  let same_n := match a, b with VF x, VF y => zlist_eqb (n (fmesh x)) (n (fmesh y)) | _, _ => true end in
-  if negb same_n then Err ValueE else
+  do _ <- all_close self (fields_of a b);
   match bnv nva nvb with
   | None => Err ValueE
   | Some nvr =>
+      let lab := ufunc_labels nvr (fields_of a b) in
       not_impl (mk_field (fmesh self) nvr
                          (map2 (bvec g) (operand_cells N a) (operand_cells N b))
-                         (fvdims self)
+                         (fst lab)
                          (map2 andb (operand_valid N a) (operand_valid N b))
-                         (Some (fvmap self)))
+                         (Some (snd lab)))
   end.
 
 Definition eval_un (o : unop) (f : field) : res field :=
@@ -417,3 +432,71 @@ End Ops.
 Arguments CNum {K}. Arguments CVec {K}. Arguments CArr {K}.
 Arguments VF {K}. Arguments VC {K}.
 Arguments Leaf {K}. Arguments Const {K}. Arguments Un {K}. Arguments Bin {K}.
+
+(* ---------- complex numbers over a field, and the executable instance ---------- *)
+Definition CplxOps (K : FOps) : FOps :=
+  let cmul := fun a b : K * K =>
+    (fsub (fmul (fst a) (fst b)) (fmul (snd a) (snd b)), fadd (fmul (fst a) (snd b)) (fmul (snd a) (fst b))) in
+  let cinv := fun a : K * K =>
+    let d := fadd (fmul (fst a) (fst a)) (fmul (snd a) (snd a)) in (fdiv (fst a) d, fopp (fdiv (snd a) d)) in
+  mkFOps (K * K) (f0 K, f0 K) (f1 K, f0 K)
+    (fun a b => (fadd (fst a) (fst b), fadd (snd a) (snd b)))
+    cmul
+    (fun a b => (fsub (fst a) (fst b), fsub (snd a) (snd b)))
+    (fun a b => cmul a (cinv b))
+    (fun a => (fopp (fst a), fopp (snd a)))
+    cinv.
+
+From Coq Require Import Qcanon.
+Definition CQ : FOps := CplxOps QcOps.
+Definition cq (re im : Q) : F CQ := (Q2Qc re, Q2Qc im).
+Definition cq_dist (a b : F CQ) : Q :=
+  Qabs (this (fst a) - this (fst b)) + Qabs (this (snd a) - this (snd b)).
+Definition cq_close (tol : Q) (a b : F CQ) : bool := Qle_bool (cq_dist a b) tol.
+(* returned when a table has no entry for the argument: never equals a generated value *)
+Definition cq_poison : F CQ := cq (10 ^ 40) (10 ^ 40).
+
+(* tables of numpy cell functions supplied with a case: nearest key, accepted within tol *)
+Fixpoint nearest1 (id : nat) (x : F CQ) (t : list (nat * F CQ * F CQ)) (best : option (Q * F CQ)) : option (Q * F CQ) :=
+  match t with
+  | [] => best
+  | (i, k, v) :: t' =>
+      if (i =? id)%nat then
+        let d := cq_dist k x in
+        nearest1 id x t' (match best with
+                          | Some (d0, _) => if Qle_bool d0 d then best else Some (d, v)
+                          | None => Some (d, v) end)
+      else nearest1 id x t' best
+  end.
+Definition lookup1 (tol : Q) (t : list (nat * F CQ * F CQ)) (id : nat) (x : F CQ) : F CQ :=
+  match nearest1 id x t None with
+  | Some (d, v) => if Qle_bool d tol then v else cq_poison
+  | None => cq_poison
+  end.
+Fixpoint nearest2 (id : nat) (x y : F CQ) (t : list (nat * F CQ * F CQ * F CQ)) (best : option (Q * F CQ)) : option (Q * F CQ) :=
+  match t with
+  | [] => best
+  | (i, k1, k2, v) :: t' =>
+      if (i =? id)%nat then
+        let d := (cq_dist k1 x + cq_dist k2 y)%Q in
+        nearest2 id x y t' (match best with
+                            | Some (d0, _) => if Qle_bool d0 d then best else Some (d, v)
+                            | None => Some (d, v) end)
+      else nearest2 id x y t' best
+  end.
+Definition lookup2 (tol : Q) (t : list (nat * F CQ * F CQ * F CQ)) (id : nat) (x y : F CQ) : F CQ :=
+  match nearest2 id x y t None with
+  | Some (d, v) => if Qle_bool d tol then v else cq_poison
+  | None => cq_poison
+  end.
+
+(* the unary cell functions at CQ: the algebraic ones are computed, the others looked up *)
+Definition un_cq (tol : Q) (t : list (nat * F CQ * F CQ)) (id : nat) (x : F CQ) : F CQ :=
+  if (id =? U_REAL)%nat then (fst x, Q2Qc 0)
+  else if (id =? U_IMAG)%nat then (snd x, Q2Qc 0)
+  else if (id =? U_CONJ)%nat then (fst x, Qcopp (snd x))
+  else if (id =? U_ABS)%nat && Qeq_bool (this (snd x)) 0 then (Q2Qc (Qabs (this (fst x))), Q2Qc 0)
+  else lookup1 tol t id x.
+
+Arguments fmesh {K}. Arguments fnv {K}. Arguments farr {K}. Arguments fvalid {K}.
+Arguments fvdims {K}. Arguments fvmap {K}. Arguments alias_of {K}.
